@@ -80,7 +80,8 @@ CLAIMED = {
         "Disallowed Syscall with the syscall not executed and every task gone; every task ever created carries the options.  "
         "C03_filter_kill from the verdict table.  Tie on every run: ~100 really traced trees of forked / vforked processes and threads "
         "issuing marker syscalls with decisions by marker name, 160 kill-verdict runs under 16-way CPU contention, runs under a killing "
-        "filter; the program's own record of return values, the directories that exist afterwards, the verdict, and the tracer's own "
+        "filter (kill issued by the main thread / a second thread, each with a control run), a later run whose main process gets the pid of an "
+        "earlier run's live descendant (private pid namespace, small pid_max); the program's own record of return values, the directories that exist afterwards, the verdict, and the tracer's own "
         "event log (waits and ptrace requests, verif hook) replayed in Coq against `handle` for every run.",
    note="Partial: the kernel's ptrace rules (a task in seccomp-stop does nothing until restarted; orig_rax = -1 skips; SIGKILL of a stopped task "
         "discards its pending syscall; auto-attach with inherited options) are the model's assumptions, exercised on every run and not proved; "
